@@ -1516,8 +1516,15 @@ TRUSTED = [
     "harness/props/c05.py: item/sheet generators, the skeleton abstraction of real sheets, the object-model extractor and "
     "filter_model (the executable reading of what each preference is documented to omit)",
     "helper.string / helper.uri results enter the Out model as given texts (field iconv; owned by C03/C12)",
-    "value, selector, media-query and unknown-rule texts are opaque strings in the skeleton; the value/media grammars and "
-    "the parser used by the end-to-end oracle are not modelled (hypotheses of prefs_preserve_meaning)",
+    "value, selector, media-query and unknown-rule texts are opaque strings in the skeleton; in general the re-parse is the "
+    "named hypothesis reparse_faithful of prefs_preserve_meaning_partial (validated by the end-to-end oracle). It is "
+    "hypothesis-free ONLY for the fragment of prefs_preserve_meaning_pp (OutModelPP.v): C02's sheet pp_sheet (comment, rule "
+    "set with a two-selector group and three declarations incl. string, signed number, dimension/percentage, rgb(), url(), "
+    "hash, !important, @media with a two-query list, nested @media) written by do_sheet under the 146 preference records of "
+    "frag_prefs (both presets; spacer=paranthesisSpacer, listItemSpacer, propertyNameSpacer, selectorCombinatorSpacer in "
+    "{'', ' '} x lineSeparator in {'\\n', '', ' '} x keepComments; indent x omitLastSemicolon x indentClosingBrace x "
+    "lineSeparator), re-parsed by the modelled tokenizer + skeleton + ProdParser value/media builders and compared with "
+    "Grammar.expected_model(_nocomments); decided by vm_compute, piece texts hand-spelled with the record's spacers",
     "the shared tokenizer model (Tokenizer.v, tied by C08) for glue_complete",
 ]
 ASSUME = [
